@@ -87,53 +87,28 @@ theorem flows_counter_kept_until_failed (ops : List FOp) (k : Key) :
 
 /-! ## policy mode -/
 
-/-- Connection theorem, unconditional form: every run of the model is accepted by the monitor for
-    `max attempts 1` attempts. -/
-theorem policy_monitor_clamped (cfg : RCfg) (t0 : Nat) (ops : List POp) :
-    pholds (max cfg.attempts 1) (prun cfg (PState.init t0) ops) = true :=
-  prun_holds cfg (max cfg.attempts 1) (by omega) (by omega) ops _ _ (pinv_init t0)
-
-/-- Connection theorem for the property as stated (`attempts` itself), excluding the class of
-    finding F17a (`attempts < 1`). -/
-theorem policy_monitor_partial (cfg : RCfg) (t0 : Nat) (ops : List POp) (hA : 1 ≤ cfg.attempts) :
+/-- Connection theorem: the judge predicate holds of every run of the model, for every configured
+    `attempts` (zero or negative included: then no retry header is ever answered). -/
+theorem policy_monitor (cfg : RCfg) (t0 : Nat) (ops : List POp) :
     pholds cfg.attempts (prun cfg (PState.init t0) ops) = true :=
-  prun_holds cfg cfg.attempts hA (Int.le_refl _) ops _ _ (pinv_init t0)
+  prun_holds cfg ops _ _ (pinv_init t0)
 
-/-- F17a: with `attempts = 0` the first in-range response is still answered with a retry header. -/
-theorem policy_monitor_violation_witness :
-    ∃ (cfg : RCfg) (t0 : Nat) (ops : List POp),
-      ¬ (pholds cfg.attempts (prun cfg (PState.init t0) ops) = true) :=
-  ⟨⟨0, 0, 1, [(500, 599)]⟩, 0, [.resp "s1" true 500], by decide⟩
-
-/-- the witness is in the class of F17a -/
-example : findingF17a 0 (prun ⟨0, 0, 1, [(500, 599)]⟩ (PState.init 0) [.resp "s1" true 500]) = true := by
-  decide
-
-/-- Bound, unconditional form: for every history and every sequence `s`, the number of retry
-    headers answered on `s` is at most `max attempts 1` per in-range *first* response of `s`
-    (a well-formed sequence has exactly one first response). -/
-theorem policy_bound_clamped (cfg : RCfg) (t0 : Nat) (ops : List POp) (s : Key) :
-    countRetryHdr s (prun cfg (PState.init t0) ops) ≤
-      (max cfg.attempts 1).toNat * countFirstIn s (prun cfg (PState.init t0) ops) := by
-  have h := pholdsFrom_bound (max cfg.attempts 1) (by omega) s _ [] (policy_monitor_clamped cfg t0 ops)
-  simpa [lookup] using h
-
-/-- Bound as stated: at most `attempts` retry headers per in-range first response of the sequence,
-    for configurations outside the class of F17a. -/
-theorem policy_bound_partial (cfg : RCfg) (t0 : Nat) (ops : List POp) (s : Key)
-    (hA : 1 ≤ cfg.attempts) :
+/-- Bound: for every history and every sequence `s`, the number of retry headers answered on `s`
+    is at most `attempts` per in-range *first* response of `s` (a well-formed sequence has exactly
+    one first response, so at most `attempts` retries; none at all when `attempts ≤ 0`). -/
+theorem policy_bound (cfg : RCfg) (t0 : Nat) (ops : List POp) (s : Key) :
     countRetryHdr s (prun cfg (PState.init t0) ops) ≤
       cfg.attempts.toNat * countFirstIn s (prun cfg (PState.init t0) ops) := by
-  have h := policy_bound_clamped cfg t0 ops s
-  have : max cfg.attempts 1 = cfg.attempts := by omega
-  rwa [this] at h
+  have h := pholdsFrom_bound cfg.attempts s _ [] (policy_monitor cfg t0 ops)
+  simpa [lookup] using h
 
-/-- F17a in numbers: `attempts = 0`, one first response, one retry header. -/
-theorem policy_bound_violation_witness :
-    ∃ (cfg : RCfg) (t0 : Nat) (ops : List POp) (s : Key),
-      ¬ (countRetryHdr s (prun cfg (PState.init t0) ops) ≤
-          cfg.attempts.toNat * countFirstIn s (prun cfg (PState.init t0) ops)) :=
-  ⟨⟨0, 0, 1, [(500, 599)]⟩, 0, [.resp "s1" true 500], "s1", by decide⟩
+/-- With no attempt configured nothing is ever retried (the former finding F17a). -/
+theorem policy_no_attempts_no_retry (cfg : RCfg) (t0 : Nat) (ops : List POp) (s : Key)
+    (hA : cfg.attempts < 1) : countRetryHdr s (prun cfg (PState.init t0) ops) = 0 := by
+  have h := policy_bound cfg t0 ops s
+  have : cfg.attempts.toNat = 0 := by omega
+  rw [this] at h
+  omega
 
 /-- A response outside the retry conditions is answered NoOp and the sequence's state is deleted. -/
 theorem policy_out_of_range_ends (cfg : RCfg) (s : PState) (seq : Key) (first : Bool) (status : Int)
@@ -202,6 +177,10 @@ example :
       [.resp "a" true 500, .adv 20000000000, .resp "a" false 500, .adv 11000000000,
        .resp "a" false 500]).map (·.out)
       = [.retry 0, .retry 0, .noop] := by decide
+
+/-- policy, attempts = 0 (former F17a witness): the first in-range response is answered NoOp. -/
+example : (prun ⟨0, 0, 1, [(500, 599)]⟩ (PState.init 0) [.resp "s1" true 500]).map (·.out) = [.noop] := by
+  decide
 
 /-- policy_exhaustion_deletes / policy_non_first_without_state_noop: hypotheses reachable. -/
 example : cacheGet (presp ⟨2, 0, 1, [(500, 599)]⟩ (PState.init 0) "a" true 500).1 "a"
